@@ -22,7 +22,8 @@ func init() {
 			"D3 the function that reads the token queue turns an error token into the diagnostic panic on every path before it hands the token on; " +
 			"D4 the scanner goroutine cannot spin: every arm of its scan loop consumes at least one rune (no token pattern accepts the empty string, the cursor advances by the match length) or leaves the loop; " +
 			"D5 the scanner goroutine is not abandoned: it closes the token queue after its loop, and ParseSource registers, before anything that can panic, a deferred drain that reads the queue until it is closed; " +
-			"D6 every loop of the parser and scanner is in a terminating (or blocking-read) form.",
+			"D6 every loop of the parser and scanner is in a terminating (or blocking-read) form." +
+			" Also: between the test of the bound and the matchers nothing moves the cursor; the matcher sees the whole rest of the input; parser state is re-created per parse.",
 		NotDecided: "absence of every other runtime error on arbitrary input, the line/column arithmetic of the diagnostic, stack depth (recursion depth equals input nesting, unbounded by design).",
 		Run:        runC12,
 	})
